@@ -107,6 +107,8 @@ type c04Run struct {
 	l1human  []string
 	okClaims int
 	rejected int
+	deepN    int             // > 0: the output commits to a tree of deepN leaves in which only a few are the recorded withdrawals
+	pos      []int           // deep tree: position of recorded withdrawal k in the committed tree
 	hooks    map[string]Hook // hook payloads built by the generator: hex(raw tx) -> structural description
 }
 
@@ -378,6 +380,59 @@ func newC04Run(rep *Report, seed uint64, id int, shapeOff int, nDenoms int, rich
 	return x
 }
 
+// the published tree rule over raw leaf hashes (independent builder, x/crypto/sha3 only)
+func treeFromLeaves(lvl [][]byte) *Tree {
+	t := &Tree{}
+	t.Levels = append(t.Levels, lvl)
+	for len(lvl) > 1 {
+		next := make([][]byte, 0, (len(lvl)+1)/2)
+		for i := 0; i < len(lvl); i += 2 {
+			a := lvl[i]
+			b := a
+			if i+1 < len(lvl) {
+				b = lvl[i+1]
+			}
+			next = append(next, h3(sortedPair(a, b)))
+		}
+		t.Levels = append(t.Levels, next)
+		lvl = next
+	}
+	return t
+}
+
+// deepTree: a tree of x.deepN leaves in which the recorded withdrawals sit at the first, second,
+// middle, second-to-last and last position (the last one is the duplicated odd-branch leaf when
+// deepN is odd) and every other leaf is a synthetic leaf hash
+func (x *c04Run) deepTree() *Tree {
+	n := x.deepN
+	cand := []int{0, n - 1, n / 2, n - 2, 1, n/2 + 1, n / 3}
+	x.pos = nil
+	used := map[int]bool{}
+	for _, p := range cand {
+		if len(x.pos) < len(x.leaves) && p >= 0 && p < n && !used[p] {
+			used[p] = true
+			x.pos = append(x.pos, p)
+		}
+	}
+	leaves := make([][]byte, n)
+	for i := range leaves {
+		if !used[i] {
+			leaves[i] = h3(append([]byte("synthetic-withdrawal-leaf"), be8(uint64(i))...))
+		}
+	}
+	for k, p := range x.pos {
+		leaves[p] = x.leaves[k].W.Leaf()
+	}
+	return treeFromLeaves(leaves)
+}
+
+func (x *c04Run) posOf(k int) int {
+	if x.deepN > 0 {
+		return x.pos[k]
+	}
+	return k
+}
+
 // propose the honest output over all recorded events, wait, claim every leaf twice
 func (x *c04Run) commitAndClaim() (tree *Tree, version byte, bhash []byte) {
 	e1 := x.e1
@@ -388,7 +443,11 @@ func (x *c04Run) commitAndClaim() (tree *Tree, version byte, bhash []byte) {
 	if len(ws) == 0 { // nothing was recorded (only possible on a broken tree, already reported): nothing to commit
 		return nil, 0, nil
 	}
-	tree = BuildTree(ws)
+	if x.deepN > 0 {
+		tree = x.deepTree()
+	} else {
+		tree = BuildTree(ws)
+	}
 	version = byte(x.r.Intn(3))
 	bhash = x.r.Bytes(32)
 	x.now += 50 * sec
@@ -470,8 +529,8 @@ func (x *c04Run) commitAndClaim() (tree *Tree, version byte, bhash []byte) {
 					x.viol(step, "C04:rejected-claim-moved-funds", "a rejected claim changed the escrow balance")
 				}
 				if pass == 0 && lf.Claimable {
-					x.viol(step, "C04:not-claimable", fmt.Sprintf("recorded withdrawal %d (amount %s, from %q, to %q, base %s) could not be claimed with the honest proof at position %d of %d: %s",
-						lf.W.Seq, lf.W.Amt, lf.W.From, lf.W.To, lf.W.Denom, k, len(x.leaves), res.Err))
+					x.viol(step, "C04:not-claimable", fmt.Sprintf("recorded withdrawal %d (amount %s, from %q, to %q, base %s) could not be claimed with the honest proof (%d siblings) at position %d of %d: %s",
+						lf.W.Seq, lf.W.Amt, lf.W.From, lf.W.To, lf.W.Denom, len(tree.Levels)-1, x.posOf(k), len(tree.Levels[0]), res.Err))
 				}
 			}
 		}
@@ -489,7 +548,7 @@ func (x *c04Run) claimOp(tree *Tree, k int, version byte, bhash []byte) L1Op {
 	sub := x.e1.User(uint64(1 + x.r.Intn(7))).Str
 	x.e1.Resolve(sub)
 	x.e1.Resolve(lf.W.To)
-	return L1Op{Kind: "finalize", Sender: sub, Bridge: x.B, Idx: 1, Seq: lf.W.Seq, Proofs: tree.Proof(k), From: lf.W.From, To: lf.W.To,
+	return L1Op{Kind: "finalize", Sender: sub, Bridge: x.B, Idx: 1, Seq: lf.W.Seq, Proofs: tree.Proof(x.posOf(k)), From: lf.W.From, To: lf.W.To,
 		Denom: lf.W.Denom, Amt: new(big.Int).Set(lf.W.Amt), Version: []byte{version}, SRoot: tree.Root(), BHash: bhash}
 }
 
@@ -660,6 +719,36 @@ func genC04(seed uint64, tier string, outdir string) *Report {
 		texts1 = append(texts1, y.coq(tree))
 		texts2 = append(texts2, y.sc.Case.Coq())
 	}
+	// (a'') deep trees: outputs committing to 2^k and 2^k+1 leaves (proof lengths 8, 9, 16, 17; thorough
+	//       also 18 and 21), of which only five are the recorded withdrawals of the run - the others are
+	//       synthetic leaf hashes.  The L1 and L2 operations are replayed by the models (the L1 model
+	//       verifies the long proofs with the Gallina SHA3); the model does NOT rebuild these trees.
+	deep := []int{256, 257, 65536, 65537}
+	if tier == "thorough" {
+		deep = append(deep, 1<<17+1, 1<<20+3)
+	}
+	var textsD []string
+	for i, n := range deep {
+		id++
+		x := newC04Run(rep, seed*31337+uint64(i), id, i, 2, false)
+		x.deepN = n
+		x.produce(0, 0, c04Amount(x.r))
+		x.produce(1, 1, c04Amount(x.r))
+		x.produce(0, 1, bigSub1(two64))
+		x.produce(3, 0, c04Amount(x.r))
+		x.produce(0, 0, big.NewInt(1))
+		tree, _, _ := x.commitAndClaim()
+		rep.Ops += len(x.c1.Ops) + len(x.sc.Case.Ops)
+		depth := 0
+		if tree != nil {
+			depth = len(tree.Levels) - 1
+		}
+		rep.Hist(fmt.Sprintf("deep-tree:%d-leaves-proof-length:%d", n, depth))
+		rep.CountCase(strings.Join(l1OpsHuman(x.c1.Ops), "\n")+"\n"+strings.Join(opsCoq(x.sc.Case.Ops), "\n"), x.okClaims > 0 && x.rejected > 0)
+		textsD = append(textsD, x.c1.Coq())
+		texts2 = append(texts2, x.sc.Case.Coq())
+	}
+	rep.Notes = append(rep.Notes, fmt.Sprintf("deep trees %v: five recorded withdrawals among synthetic leaves, claimed with their full-length proofs on the real L1; the models replay the operations (incl. proof verification) but do not rebuild these trees", deep))
 	// (b) every tree size, every position
 	maxN := 33
 	if tier == "thorough" {
@@ -700,5 +789,6 @@ func genC04(seed uint64, tier string, outdir string) *Report {
 	}
 	writeShards(outdir, "C04", c04CaseHeader, "run_c04case", "c04case", texts1, nsh, rep)
 	writeShards(outdir, "C04L2", l2CaseHeader, "run_l2case", "l2case", texts2, 2, rep)
+	writeShards(outdir, "C04D", l1CaseHeader, "run_l1case", "l1case", textsD, 1, rep)
 	return rep
 }
